@@ -219,6 +219,22 @@ func nameClassSSA(L *Loaded, call *ssa.Call) []string {
 	for _, t := range s.eval(call.Common().Args[0]) {
 		out = append(out, classifyTerm(L, t, call.Parent(), 0)...)
 	}
+	// a name that comes out of a private helper: look through the helper (its feasible returns) once more
+	through := false
+	for _, cl := range out {
+		if strings.HasPrefix(cl, "unknown:"+modPath) {
+			through = true
+		}
+	}
+	if through {
+		s2 := newSym(L, map[string]bool{})
+		s2.maxD = 2
+		var out2 []string
+		for _, t := range s2.eval(call.Common().Args[0]) {
+			out2 = append(out2, classifyTerm(L, t, call.Parent(), 0)...)
+		}
+		return uniq(out2)
+	}
 	return uniq(out)
 }
 
